@@ -730,7 +730,54 @@ def c17(sc, tier, seed):
     cases = []
     for i, p in enumerate(progs):
         kind, pat, ty = variants[i % len(variants)]
-        cases.append({'id': i, 'prog': p, 'kind': kind, 'match': pat, 'type': ty, 'n': 120})
+        cases.append({'id': i, 'prog': p, 'kind': kind, 'match': pat, 'type': ty, 'n': 120, 'delmode': ['del', 'unlink', 'expire'][(i // len(variants)) % 3], 'origin': 'simulation'})
+    # (b) every schedule of 6 operations over 3 elements (MC_scan_small, exhaustive), on names that collide in the
+    #     16-bucket table so that even this small collection grows; all kinds, all ways of removing a key
+    import dictsteer as ds, random as _r
+    rnd = _r.Random(seed)
+    out_s, st_s = run_tlc(sc, 'MC_scan_small', open(os.path.join(SPEC, 'MC_scan_small.cfg')).read(), workers=4, timeout=900)
+    require_tlc_clean(st_s, 'MC_scan_small')
+    v.add_tlc('MC_scan_small', st_s)
+    small = [op for op in tlc_json_lines(out_s) if 'scanprog' in op]
+    pools = ds.make_pools('e', seed)
+    pairs = [p for p in pools if p['kind'].startswith('pair')]
+    kinds3 = [('set', 'del'), ('hash', 'del'), ('keys', 'del'), ('keys', 'unlink'), ('keys', 'expire')]
+    rnd.shuffle(small)
+    if tier != 'quick':
+        small = [op for op in small for _ in kinds3]        # every schedule on every kind
+    for i, op in enumerate(small):
+        kind, dm = kinds3[i % len(kinds3)]
+        names = pairs[i % len(pairs)]['names'][:3]
+        cases.append({'id': len(cases), 'prog': op['scanprog'], 'init': [1, 2, 3] if op.get('init') == 'full' else [], 'kind': kind, 'match': '',
+                      'type': 'string' if (kind == 'keys' and i % 2 == 0) else '', 'n': 3, 'names': names, 'delmode': dm, 'origin': 'exhaustive-small'})
+    # (c) dict steering: an iteration is in progress while the table grows or shrinks (Dict.tla's state graph)
+    from concurrent.futures import ThreadPoolExecutor
+    use = []
+    for reset in (True, False):
+        pp = list(pairs)
+        rnd.shuffle(pp)
+        use += [(p, reset) for p in pp[:(6 if tier == 'quick' else 16)]]
+
+    def explore(pr):
+        pool, reset = pr
+        mod, cfg = ds.dict_module(pool, 64, reset_when_empty=reset)
+        tag = 'dict-%s-%s' % (pool['kind'], reset)
+        d = sc.path('tlc-' + tag)
+        if not os.path.isdir(d):
+            shutil.copytree(SPEC, d)
+        open(os.path.join(d, 'MC_dict.tla'), 'w').write(mod)
+        return run_tlc(sc, 'MC_dict', cfg, tag=tag, workers=2, timeout=900)
+    with ThreadPoolExecutor(max_workers=NCPU // 2) as ex:
+        runs = list(ex.map(explore, use))
+    nsteer = 0
+    for (pool, reset), (out_d, st_d) in zip(use, runs):
+        require_tlc_clean(st_d, 'MC_dict ' + pool['kind'])
+        for sch in ds.scan_schedules(list(tlc_json_lines(out_d)), rnd, 1 if tier == 'quick' else 3):
+            kind = 'keys' if not reset else ['set', 'hash'][nsteer % 2]
+            cases.append({'id': len(cases), 'prog': sch['prog'], 'kind': kind, 'match': '', 'type': '', 'n': len(pool['names']), 'names': pool['names'],
+                          'delmode': 'del', 'origin': 'dict-steering ' + sch['label']})
+            nsteer += 1
+    v.cov['tlc_runs'].append({'model': 'Dict.tla over %d name pools (resize edges -> %d SCAN schedules)' % (len(use), nsteer)})
     cf, rf = sc.path('scan-cases.jsonl'), sc.path('scan-out.jsonl')
     with open(cf, 'w') as f:
         for c in cases:
@@ -747,7 +794,7 @@ def c17(sc, tier, seed):
         if r['status'] == 'ok':
             hist.append((c, r))
         elif r['status'] in ('viol', 'crash'):
-            v.record_violation({'kind': c['kind'], 'match': c['match'], 'prog': c['prog']}, {'fail': {'status': r['status'], 'cmd': '%s history %d' % (c['kind'], c['id']), 'detail': (r.get('detail') or '')[:500]}}, engine='scan')
+            v.record_violation({k: c[k] for k in c if k != 'id'}, {'fail': {'status': r['status'], 'cmd': '%s history %d (%s)' % (c['kind'], c['id'], c.get('origin', '')), 'detail': (r.get('detail') or '')[:500]}}, engine='scan')
         else:
             v.inconclusive.append('scan case %d: %s' % (r['id'], r.get('detail')))
     if hist:
@@ -770,8 +817,8 @@ def c17(sc, tier, seed):
             v.cov['traces_validated_against_impl'] += 1
             its += vd['iterations']
             if not vd['ok']:
-                v.record_violation({'kind': c['kind'], 'match': c['match'], 'prog': c['prog'], 'history': r['ev']},
-                                   {'fail': {'status': 'viol', 'cmd': '%s history %d (MATCH %r)' % (c['kind'], c['id'], c['match']),
+                v.record_violation(dict({k: c[k] for k in c if k != 'id'}, history=r['ev']),
+                                   {'fail': {'status': 'viol', 'cmd': '%s history %d (MATCH %r, %s)' % (c['kind'], c['id'], c['match'], c.get('origin', '')),
                                              'detail': 'a full iteration violates Always <= Returned <= Ever: ' + json.dumps(vd['bad'])[:400]}}, engine='trace_scan')
         v.cov['distinct_nontrivial'] = its
         v.cov['engines']['scan'] = {'histories': len(hist), 'full_iterations_judged': its, 'scan_calls': sum(r.get('calls', 0) for _, r in hist)}
@@ -780,7 +827,7 @@ def c17(sc, tier, seed):
     v.assumptions = ['element names are e1..e120 (the table passes through several doublings and halvings: growth is forced by the first hash collision at 16 buckets); hash bit patterns are not steered',
                      'MATCH patterns are a prefix, a suffix and an exact name; TYPE string on an all-string keyspace',
                      'termination: an iteration in progress when the history ends must finish within 4n+256 further calls on the then stable collection']
-    return v.finish(rule='TLC simulation of ScanHist yields histories of 260 operations (bursts of additions, bursts of removals, SCAN calls with COUNT in {1,2,3,10,1000} continuing the current iteration) over 120 elements; each is executed on a real set (SSCAN), hash (HSCAN) or keyspace (SCAN), with and without MATCH / TYPE; the recorded history (cursor in, cursor out, elements per call) is judged by TLC (Trace_Scan): for every completed full iteration Always <= Returned <= Ever restricted to the filter; plus termination on the stable collection. Non-trivial = completed full iterations judged.')
+    return v.finish(rule='Three sources of schedules, all executed on real collections and judged by TLC (Trace_Scan): (a) every schedule of 6 additions / removals / single-bucket SCAN calls over 3 elements from the empty and the full collection (MC_scan_small, exhaustive: 1562 schedules incl. the ones that empty the collection mid-iteration), on names that collide in the 16-bucket table, for SSCAN, HSCAN and SCAN with keys removed by DEL, UNLINK or a deadline in the past, with and without TYPE; (b) dict steering: for every grow / shrink edge of the state graph of Dict.tla (the emulator hash table transcribed, real SipHash bits) a store / remove path to it with 1-4 SCAN calls of an iteration placed just before the resize; (c) TLC simulation of ScanHist yields histories of 260 operations (bursts of additions, bursts of removals, SCAN calls with COUNT in {1,2,3,10,1000} continuing the current iteration) over 120 elements; each is executed on a real set (SSCAN), hash (HSCAN) or keyspace (SCAN), with and without MATCH / TYPE; the recorded history (cursor in, cursor out, elements per call) is judged by TLC (Trace_Scan): for every completed full iteration Always <= Returned <= Ever restricted to the filter; plus termination on the stable collection. Non-trivial = completed full iterations judged.')
 
 
 def block_check(sc, tier, seed, prop, select, rule, quick_n, assumptions=()):
